@@ -181,12 +181,14 @@ W['bfs'] = dict(sizes=['-node=100', '-node=63', '-node=257', '-node=1000 -degree
 W['bitonicsort'] = dict(sizes=['-length=256', '-length=64', '-length=2', '-length=256 -order-asc=false'], cdna3=True, multi=True, unified=True, um=True, timing=False)
 W['fastwalshtransform'] = dict(sizes=['-length=256', '-length=512', '-length=2048'], cdna3=True, multi=False, unified=True, um=True, timing=False)
 W['fft'] = dict(sizes=['-bytes=65536', '-bytes=8192', '-bytes=131072 -passes=2'], cdna3=True, multi=True, unified=True, um=True, timing=True)
-W['floydwarshall'] = dict(sizes=['-node=16', '-node=8', '-node=32', '-node=16 -iter=3'], cdna3=True, multi=True, unified=True, um=True, timing=True)
+W['floydwarshall'] = dict(sizes=['-node=16', '-node=8', '-node=32', '-node=16 -iter=3'], cdna3=True, multi=True, unified=True, um=True, timing=True,
+                          timing_sizes=['-node=16', '-node=8', '-node=16 -iter=3'])
 W['kmeans'] = dict(sizes=['-points=100 -features=8 -clusters=3 -max-iter=2', '-points=65 -features=3 -clusters=2 -max-iter=3',
                           '-points=1 -features=1 -clusters=1 -max-iter=1', '-points=256 -features=34 -clusters=5 -max-iter=2'],
                    cdna3=True, multi=True, unified=True, um=True, timing=True)
-W['matrixmultiplication'] = dict(sizes=['-x=32 -y=32 -z=32', '-x=16 -y=16 -z=16', '-x=64 -y=32 -z=16'], cdna3=True, multi=True, unified=True, um=True, timing=True)
-W['matrixtranspose'] = dict(sizes=['-width=128', '-width=256', '-width=64'], cdna3=True, multi=True, unified=True, um=True, timing=True, multi_sizes=['-width=128', '-width=256'])
+W['matrixmultiplication'] = dict(sizes=['-x=32 -y=32 -z=32', '-x=16 -y=16 -z=16', '-x=64 -y=32 -z=16', '-x=64 -y=32 -z=32'], cdna3=True, multi=True, unified=True, um=True, timing=True,
+                                 cdna3_sizes=['-x=32 -y=32 -z=32', '-x=64 -y=32 -z=32'])
+W['matrixtranspose'] = dict(sizes=['-width=128', '-width=256', '-width=64'], cdna3=True, multi=True, unified=True, um=True, timing=True, multi_sizes=['-width=256'])
 W['nbody'] = dict(sizes=['-particles=128 -iter=2', '-particles=100 -iter=2', '-particles=64 -iter=1', '-particles=1 -iter=1'], cdna3=True, multi=True, unified=True, um=True, timing=True)
 W['nw'] = dict(sizes=['-length=64', '-length=128'], cdna3=True, multi=False, unified=False, um=False, timing=False)
 W['pagerank'] = dict(sizes=['-node=32 -sparsity=0.5 -iterations=2', '-node=65 -sparsity=0.1 -iterations=2', '-node=1 -sparsity=1 -iterations=1'],
@@ -224,6 +226,10 @@ KNOWN = [
          match=lambda c: c['w'] == 'vectoradd' and not c['unified'] and c['ngpu'] >= 2,
          text='vectoradd with N discrete GPUs: every GPU computes the first 1/N of the vectors (the global offset is only passed as a '
               'hidden argument the kernels do not use for the element index): -verify fails in emulation, gcn3 and cdna3'),
+    dict(id='floydwarshall-timing-node32', witness='floydwarshall -node=32 -timing', timeout=90,
+         match=lambda c: c['w'] == 'floydwarshall' and c['timing'] and '-node=32' in c['size'],
+         text='floydwarshall -timing (an acceptance-matrix class, listed with the default 16 nodes) fails -verify for 32 and 64 nodes '
+              '(Mismatch at row 0 col 1) while emulation passes and 8/16 nodes pass in timing: timing and emulation disagree on this kernel'),
     dict(id='stencil2d-column-count', witness='stencil2d -row=64 -col=66', timeout=60,
          match=lambda c: False,
          text='stencil2d with a column count other than 64/127/128/192 (e.g. -col=66: one full 64-lane work-group) makes the emulator '
@@ -258,7 +264,8 @@ def full_matrix():
     for w, d in W.items():
         for s in d['sizes']:
             m.append(mk(w, s))
-            if d['cdna3']:
+            cd = d['cdna3'] and s in d.get('cdna3_sizes', d['sizes'])
+            if cd:
                 m.append(mk(w, s, arch='cdna3'))
             msz = d.get('multi_sizes', d['sizes'][:1])
             if s in msz:
@@ -270,13 +277,13 @@ def full_matrix():
                 if d['unified']:
                     for g in ('1,2', '1,2,3,4'):
                         m.append(mk(w, s, gpus=g, unified=True))
-                        if d['cdna3']:
+                        if cd:
                             m.append(mk(w, s, arch='cdna3', gpus=g, unified=True))
                         if d['um']:
                             m.append(mk(w, s, gpus=g, unified=True, um=True))
             if d['um']:
                 m.append(mk(w, s, um=True))
-            if d['timing']:  # acceptance-matrix classes (r9nano timing platform)
+            if d['timing'] and s in d.get('timing_sizes', d['sizes']):  # acceptance-matrix classes (r9nano timing platform)
                 m.append(mk(w, s, timing=True))
                 if d['um']:
                     m.append(mk(w, s, timing=True, um=True))
@@ -299,7 +306,7 @@ def quick_matrix(rng):
     core = [
         mk('fir', '-length=100'), mk('fir', '-length=1000', arch='cdna3'), mk('fir', '-length=100', gpus='1,2'),
         mk('fir', '-length=1000', gpus='1,2', unified=True), mk('fir', '-length=100', timing=True),
-        mk('matrixtranspose', '-width=128', gpus='1,2'), mk('matrixtranspose', '-width=64', arch='cdna3'),
+        mk('matrixtranspose', '-width=256', gpus='1,2'), mk('matrixtranspose', '-width=64', arch='cdna3'),
         mk('matrixmultiplication', '-x=32 -y=32 -z=32', timing=True),
         mk('atax', '-x=33 -y=17', um=True), mk('bicg', '-x=64 -y=64', gpus='1,2,3,4', unified=True),
         mk('kmeans', '-points=65 -features=3 -clusters=2 -max-iter=3'), mk('aes', '-length=1024', arch='cdna3'),
